@@ -604,3 +604,64 @@ func TestGenerators(t *testing.T) {
 	P.AddDistinct(n)
 	P.SetExtra("generator_round_trips", n)
 }
+
+// TestManyIssuers: one process that meets MANY issuers (a service, a relay): a delegation of each of N distinct
+// non-Ed25519 and Ed25519 issuers is sealed and unsealed, then the early ones are used again - their old tokens still
+// unseal, and they can seal new ones. Whatever the library remembers about keys it has seen (a bounded cache has to
+// evict at some N) does not change what a key is.
+func TestManyIssuers(t *testing.T) {
+	ctx := &h.Ctx{P: P, T: t}
+	n := h.N(1400, 9000)
+	algs := []keys.Alg{keys.Secp256k1, keys.Secp256k1, keys.P256, keys.Ed25519}
+	aud := keys.Principal(1).DID
+	type kept struct {
+		k      *keys.Key
+		sealed []byte
+		id     cid.Cid
+	}
+	var first []kept
+	roundTrip := func(k *keys.Key, nonce byte, phase string, i int) ([]byte, cid.Cid, bool) {
+		d, err := delegation.Root(k.DID, aud, command.MustParse("/many/issuers"), policy.Policy{}, delegation.WithNonce(bytes.Repeat([]byte{nonce}, 12)))
+		if err != nil {
+			ctx.Fail("C07/many-issuers/constructor", "%s issuer #%d (%s): delegation.Root: %v", phase, i, k.Alg, err)
+			return nil, cid.Undef, false
+		}
+		sealed, id, err := d.ToSealed(k.Priv)
+		if err != nil {
+			ctx.Fail("C07/many-issuers/seal-fails/"+phase, "issuer #%d (%s %s), after %d other issuers were met in this process: sealing with its own key fails: %v", i, k.Alg, k.DID, n, err)
+			return nil, cid.Undef, false
+		}
+		back, id2, err := token.FromSealed(sealed)
+		if err != nil || id2 != id || issuerOf(back) != k.DID {
+			ctx.Fail("C07/many-issuers/unseal-fails/"+phase, "issuer #%d (%s %s): its freshly sealed delegation does not unseal: %v", i, k.Alg, k.DID, err)
+			return nil, cid.Undef, false
+		}
+		return sealed, id, true
+	}
+	for i := 0; i < n; i++ {
+		k := keys.Get(algs[i%len(algs)], 100+i)
+		sealed, id, ok := roundTrip(k, 1, "first-use", i)
+		if !ok {
+			return
+		}
+		if i < 64 {
+			first = append(first, kept{k, sealed, id})
+		}
+	}
+	for i, f := range first {
+		if back, id2, err := token.FromSealed(f.sealed); err != nil || id2 != f.id || issuerOf(back) != f.k.DID {
+			ctx.Fail("C07/many-issuers/old-token-rejected", "the delegation of issuer #%d (%s %s), sealed and unsealed at the start of this process, is refused after %d other issuers were met: %v", i, f.k.Alg, f.k.DID, n, err)
+			return
+		}
+		if _, _, ok := roundTrip(f.k, 2, "reuse", i); !ok {
+			return
+		}
+		if pk, err := f.k.DID.PubKey(); err != nil || !pk.Equals(f.k.Pub) {
+			ctx.Fail("C07/many-issuers/pubkey-changed", "DID %s of issuer #%d yields another key (or %v) after %d other issuers were met", f.k.DID, i, err, n)
+			return
+		}
+	}
+	P.EvalN(n + len(first))
+	P.AddDistinct(n)
+	P.SetExtra("distinct_issuers_in_one_process", n)
+}
